@@ -1,10 +1,8 @@
 package rules
 
 import (
-	"fmt"
 	"go/token"
 	"go/types"
-	"os"
 	"strings"
 
 	"golang.org/x/tools/go/ssa"
@@ -15,7 +13,7 @@ import (
 func init() {
 	register(&Property{
 		ID:          "C06",
-		Explanation: "Decides validate-before-use for the numbers decoded from an info dictionary and that no parse bypasses the limits: (R06.1) every signed integer field of the struct that bencode.DecodeBytes fills inside metainfo.NewInfo (resolved from the decode destination type: infoType.Length, file.Length) is, wherever it is added into an accumulator or stored into an exported Info/File field, covered by a must-fact v >= 0 - either on the very value or, for values read in a later loop, as the universal fact established by a complete range loop whose every iteration passes the test - or (single-file length) by the two-sided delta bound on the field it is stored to; (R06.2) the success return of NewInfo is dominated by PieceLength != 0, len(Pieces) % sha1.Size == 0, len(Pieces)/sha1.Size != 0 and 0 <= int64(PieceLength)*int64(NumPieces) - Length < int64(PieceLength) with the product formed in int64, and Info.PieceLength / NumPieces / pieces are stored from exactly the validated expressions; (R06.3) metainfo.NewInfo is called outside its package only by Session.parseInfo, metainfo.New inside package torrent only by Session.parseMetaInfo, both succeed only under NumPieces <= config.MaxPieces, the reader given to parseMetaInfo is io.LimitReader(_, config.MaxTorrentSize), torrent.info is assigned only from parseInfo / parseMetaInfo results (three parse entry points) and Info's numeric fields are written only inside NewInfo; (R06.4) torrent.pieces is installed only under len(pieces) != 0 and every spawn of Verifier.Run (which indexes pieces[0]) requires len(t.pieces) != 0. NOT decided: termination and work bound of piece.NewPieces as such (R06.1 is its necessary condition), robustness of zeebo/bencode for all byte strings, memory use.",
+		Explanation: "Decides validate-before-use for the numbers decoded from an info dictionary and that no parse bypasses the limits: (R06.1) every signed integer field of the struct that bencode.DecodeBytes fills inside metainfo.NewInfo (resolved from the decode destination type: infoType.Length, file.Length) is, wherever it is added into an accumulator or stored into an exported Info/File field, covered by a must-fact v >= 0 - either on the very value or, for values read in a later loop, as the universal fact established by a complete range loop whose every iteration passes the test - or (single-file length) by the two-sided delta bound on the field it is stored to; (R06.2) the success return of NewInfo is dominated by PieceLength != 0, len(Pieces) % sha1.Size == 0, len(Pieces)/sha1.Size != 0 and 0 <= int64(PieceLength)*int64(NumPieces) - Length < int64(PieceLength) with the product formed in int64, and Info.PieceLength / NumPieces / pieces are stored from exactly the validated expressions; (R06.3) metainfo.NewInfo is called outside its package only by Session.parseInfo, metainfo.New inside package torrent only by Session.parseMetaInfo, both succeed only under NumPieces <= config.MaxPieces, the reader given to parseMetaInfo is io.LimitReader(_, config.MaxTorrentSize), torrent.info is assigned only from parseInfo / parseMetaInfo results (three parse entry points) and Info's / File's numeric fields are written only as part of NewInfo (NewInfo itself or a helper of package metainfo that only NewInfo calls); must-facts are evaluated across helper boundaries (a validation loop in a helper called earlier on every path, or in the caller of the helper that consumes the value, counts; an argument of newTorrent that is a helper's parameter is judged at the helper's call sites); (R06.4) torrent.pieces is installed only under len(pieces) != 0 and every spawn of Verifier.Run (which indexes pieces[0]) requires len(t.pieces) != 0. NOT decided: termination and work bound of piece.NewPieces as such (R06.1 is its necessary condition), robustness of zeebo/bencode for all byte strings, memory use.",
 		RuleText:    commonRuleText,
 		Assumptions: append([]string{"a universal fact over a decoded slice is established only by a range loop over exactly that slice whose every back edge carries the element fact, and is killed by any store to a field on the access path (any base) and by calls that may perform one"}, commonAssumptions...),
 		Run:         runC06,
@@ -242,7 +240,7 @@ func runC06(c *kit.Ctx) {
 			}
 			nSt++
 			e := kit.Canon(st.Val)
-			c.Check(st.Fn == newInfo && chk.ok(e), "R06.2", k.key(st.Fn, "store Info."+chk.f.Name()), posOf(st.Store),
+			c.Check(c.OnlyCalledFrom(st.Fn, newInfo, 2) && chk.ok(e), "R06.2", k.key(st.Fn, "store Info."+chk.f.Name()), posOf(st.Store),
 				"Info."+chk.f.Name()+" = "+chk.what+" (the validated expression)", "Info."+chk.f.Name()+" = "+e.String()+" is not "+chk.what+": the validations speak about a different value")
 		}
 	}
@@ -264,29 +262,21 @@ func runC06(c *kit.Ctx) {
 			}
 			return false
 		}
-		cfs := map[*ssa.Function]*kit.ClassFacts{}
-		cfOf := func(fn *ssa.Function) *kit.ClassFacts {
-			if cfs[fn] == nil {
-				cfs[fn] = c.NewClassFacts(fn, nonNegSubject)
-				if os.Getenv("RAINLINT_CF") != "" {
-					fmt.Fprintf(os.Stderr, "classfacts %s:\n%s", fn.Name(), cfs[fn].Debug())
-				}
-			}
-			return cfs[fn]
-		}
+		// interprocedural: a validation loop in a helper called earlier on every
+		// path, or in the caller of the helper that consumes the value, counts
+		deep := c.NewDeepFacts(nonNegSubject, func(fn *ssa.Function) bool { return inPkg(fn, c, "internal/metainfo") })
 		nSink := 0
 		for _, sf := range srcs {
 			for _, ld := range c.FieldLoads(sf) {
 				ldIns := ld.(ssa.Instruction)
 				fn := ldIns.Parent()
-				cf := cfOf(fn)
 				srcName := fieldOwner(c, sf) + "." + sf.Name()
 				seen := map[ssa.Value]bool{}
 				var walk func(v ssa.Value)
 				need := func(at ssa.Instruction, what, bad string) {
 					nSink++
 					key := k.key(fn, what+" "+srcName)
-					if cf.Holds(ld, at) {
+					if deep.Holds(ld, at) {
 						c.OK("R06.1", key, posOf(at), "%s %s: %s >= 0 is a must-fact here (test on the value, or universal fact of a complete validation loop)", what, srcName, srcName)
 					} else {
 						c.Bad("R06.1", key, posOf(at), "%s decoded %s, which is not bounded below on every path (%s)", what, srcName, bad)
@@ -325,7 +315,7 @@ func runC06(c *kit.Ctx) {
 								if g == nil || !isOut(g) {
 									continue // copy inside the decoded struct
 								}
-								if g == fLen && fn == newInfo && deltaAtSuccess && !cf.Holds(ld, x) {
+								if g == fLen && fn == newInfo && deltaAtSuccess && !deep.Holds(ld, x) {
 									nSink++
 									c.OK("R06.1", k.key(fn, "store Info.Length = "+srcName), posOf(x),
 										"Info.Length = %s is bounded on both sides by the delta check before success (0 <= PieceLength*NumPieces - Length < PieceLength, R06.2)", srcName)
@@ -352,20 +342,38 @@ func runC06(c *kit.Ctx) {
 		}
 		c.Floor("R06.1", "uses of decoded signed lengths (arithmetic / stores into Info, File)", nSink, 4)
 		// second order: File.Length copied from Info.Length only after the delta check;
-		// every writer of the exported length fields is NewInfo
+		// every writer of the exported length fields runs as part of NewInfo (NewInfo
+		// itself or a helper of package metainfo that only NewInfo calls)
+		deltaSpec := func(gen func(a kit.Atom) bool) *kit.Spec {
+			kill := killAny(fLen, fPL, fNP)
+			return &kit.Spec{P: c.Prog, Deep: kit.DefaultDeep, Edge: gen, Instr: func(ins ssa.Instruction, in bool) bool {
+				if in && kill(ins) {
+					return false
+				}
+				return in
+			}}
+		}
+		dLoS := deltaSpec(func(a kit.Atom) bool {
+			z, ok := a.R.IntConst()
+			return ok && z == 0 && a.Op == token.GEQ && isDelta(a.L)
+		})
+		dHiS := deltaSpec(func(a kit.Atom) bool {
+			ok, strict := a.UpperBound(isDelta, func(e *kit.Expr) bool { return convOf(e, fPL) })
+			return ok && strict
+		})
 		for _, f := range []*types.Var{fFileLen, fLen, fPad} {
 			for _, st := range fieldStores(c, f) {
 				key := k.key(st.Fn, "store "+fieldOwner(c, f)+"."+f.Name())
-				if st.Fn != newInfo {
-					c.Bad("R06.1", key, posOf(st.Store), "%s.%s written outside metainfo.NewInfo: length not validated", fieldOwner(c, f), f.Name())
+				if !inPkg(st.Fn, c, "internal/metainfo") || !c.OnlyCalledFrom(st.Fn, newInfo, 2) {
+					c.Bad("R06.1", key, posOf(st.Store), "%s.%s written outside metainfo.NewInfo (and its private helpers): length not validated", fieldOwner(c, f), f.Name())
 					continue
 				}
 				e := kit.Canon(st.Val).Strip()
 				if e.IsField(fLen) && f != fLen {
-					c.Check(dLo.Before(st.Store) && dHi.Before(st.Store), "R06.1", key, posOf(st.Store),
+					c.Check(dLoS.Holds(st.Store, 2) && dHiS.Holds(st.Store, 2), "R06.1", key, posOf(st.Store),
 						fieldOwner(c, f)+"."+f.Name()+" = Info.Length after the delta check", fieldOwner(c, f)+"."+f.Name()+" copied from Info.Length before the delta check")
 				} else {
-					c.Present("R06.1", key, posOf(st.Store), "written inside NewInfo (value covered by the use obligations above)")
+					c.Present("R06.1", key, posOf(st.Store), "written as part of NewInfo (value covered by the use obligations above)")
 				}
 			}
 		}
@@ -460,19 +468,68 @@ func runC06(c *kit.Ctx) {
 		c.Floor("R06.3", "parseMetaInfo call sites", nr, 1)
 
 		// torrent.info only from the limited parsers
+		// a value handed to a helper is judged at the helper's call sites
+		viaCallers := func(v ssa.Value, d int, f func(arg ssa.Value, d int) (string, bool)) (string, bool, bool) {
+			prm, isParam := v.(*ssa.Parameter)
+			if !isParam {
+				return "", false, false
+			}
+			fn := prm.Parent()
+			idx := -1
+			for i, q := range fn.Params {
+				if q == prm {
+					idx = i
+				}
+			}
+			sites := c.StaticCallSites(fn)
+			if idx < 0 || len(sites) == 0 {
+				return "parameter " + prm.Name() + " of " + fn.Name() + " (no static call site)", false, true
+			}
+			var parts []string
+			for _, site := range sites {
+				call, _ := site.(*ssa.Call)
+				if call == nil || idx >= len(call.Call.Args) {
+					return "parameter " + prm.Name() + " of " + fn.Name() + " (called in an unknown context)", false, true
+				}
+				s, ok := f(call.Call.Args[idx], d+1)
+				if !ok {
+					return s, false, true
+				}
+				parts = append(parts, s)
+			}
+			return strings.Join(parts, "|"), true, true
+		}
+		var miOrigin func(v ssa.Value, d int) (string, bool)
+		miOrigin = func(v ssa.Value, d int) (string, bool) {
+			if d > 6 {
+				return "too deep", false
+			}
+			v = c14Trace(v)
+			e := kit.Canon(v)
+			if e.Kind == "extract" && e.Idx == 0 && e.Args[0].IsCallTo(parseMIObj) {
+				return "parseMetaInfo", true
+			}
+			if s, ok, isParam := viaCallers(v, d, miOrigin); isParam {
+				return s, ok
+			}
+			return e.String(), false
+		}
 		var origin func(v ssa.Value, d int) (string, bool)
 		origin = func(v ssa.Value, d int) (string, bool) {
 			if d > 6 {
 				return "too deep", false
 			}
+			v = c14Trace(v)
 			e := kit.Canon(v)
 			switch {
 			case e.IsNil():
 				return "nil", true
 			case e.Kind == "extract" && e.Idx == 0 && e.Args[0].IsCallTo(parseInfoObj):
 				return "parseInfo", true
-			case e.Kind == "fieldaddr" && e.Field == fMIInfo && e.Args[0].Kind == "extract" && e.Args[0].Idx == 0 && e.Args[0].Args[0].IsCallTo(parseMIObj):
-				return "parseMetaInfo", true
+			case e.Kind == "fieldaddr" && e.Field == fMIInfo:
+				if fa, ok := v.(*ssa.FieldAddr); ok {
+					return miOrigin(fa.X, d+1)
+				}
 			}
 			if ph, ok := v.(*ssa.Phi); ok {
 				var parts []string
@@ -484,6 +541,9 @@ func runC06(c *kit.Ctx) {
 					parts = append(parts, s)
 				}
 				return strings.Join(parts, "|"), true
+			}
+			if s, ok, isParam := viaCallers(v, d, origin); isParam {
+				return s, ok
 			}
 			return e.String(), false
 		}
